@@ -28,6 +28,9 @@ import (
 
 var vhProgIdx = 0
 
+// vhInputBound bounds the two inputs: (-vhInputBound, vhInputBound).
+var vhInputBound = 1000
+
 func vhProgName() string {
 	var names []string
 	for k := range vhPrograms {
@@ -165,7 +168,7 @@ func vh_E2E() {
 	vhStopAt = -1
 	name := vhProgName()
 	a, b := vNondetInt("a"), vNondetInt("b")
-	vAssume(a > -1000 && a < 1000 && b > -1000 && b < 1000)
+	vAssume(a > -vhInputBound && a < vhInputBound && b > -vhInputBound && b < vhInputBound)
 	var got, want []int
 	var buf bytes.Buffer
 	i := vhFullInterp(&buf)
@@ -222,6 +225,6 @@ func vh_E2E() {
 
 var vhRegistry = map[string]func(){"vh_E2E": vh_E2E}
 
-var vhIntVars = map[string]*int{"vhProgIdx": &vhProgIdx, "vhMaxSteps": &vhMaxSteps}
+var vhIntVars = map[string]*int{"vhProgIdx": &vhProgIdx, "vhInputBound": &vhInputBound, "vhMaxSteps": &vhMaxSteps}
 
 var vhScenarios = map[string]func(map[string]string) bool{}
